@@ -3,6 +3,7 @@ package records
 import (
 	"bufio"
 	"bytes"
+	"context"
 	"encoding/json"
 	"fmt"
 	"os"
@@ -235,6 +236,15 @@ func Run(c *vrun.Ctx) error {
 	if err != nil {
 		return err
 	}
+	// thorough tier: the arithmetic laws once more, symbolically, for every
+	// 64-bit value (RecordsInt.tla, Apalache); runs beside TLC and the replay
+	var apalache chan error
+	if c.Thorough {
+		apalache = make(chan error, 1)
+		actx, cancel := context.WithCancel(context.Background())
+		defer cancel() // an early return stops the solver processes
+		go func() { apalache <- runApalache(actx, c) }()
+	}
 	cfg := "Records_quick.cfg"
 	workers := 5
 	if c.Thorough {
@@ -306,9 +316,18 @@ func Run(c *vrun.Ctx) error {
 		return err
 	}
 
-	c.Ev.Coverage.Exhaustive = true
-	c.Ev.Coverage.Explanation = "exhaustive means: every case TLC enumerated from RecordsCases.tla for this tier was replayed into the btcd code, including every listed truncation and mutation. " +
-		"It does not mean every 64-bit amount, every script or every byte string: integers are covered densely only up to 2^17 (quick) / 2^20 (thorough) and by boundary / digit-pattern classes above; " +
-		"scripts, heights, shapes and malformed inputs by the classes the specification lists."
+	if apalache != nil {
+		if err := <-apalache; err != nil {
+			return err
+		}
+	}
+
+	// The enumerated case space is replayed completely, but it samples the
+	// property's quantifier (every amount / script / byte string): not exhaustive.
+	c.Ev.Coverage.Exhaustive = false
+	c.Ev.Coverage.Explanation = "Every case TLC enumerated from RecordsCases.tla for this tier was replayed into the btcd code, including every listed truncation and mutation; " +
+		"that case space samples the property's quantifier rather than exhausting it: integers are covered densely only up to 2^17 (quick) / 2^20 (thorough) and by boundary / digit-pattern classes up to 2^64-1; " +
+		"scripts, heights, transaction shapes and malformed inputs by the classes the specification lists. In the thorough tier the arithmetic laws (amount compression is a bijection with recoverable exponent; " +
+		"the VLQ encode/decode steps are inverse and lengths canonical) are additionally checked by Apalache for ALL 64-bit values on the specification (RecordsInt.tla), which the code is tied to only through the sampled replay."
 	return nil
 }
